@@ -54,7 +54,7 @@ CallObs(gc, w, a, n, k) ==
     LET blk  == w.blk
         head == w.head
         sets == SetsAt(blk, head)
-        isDlv == a.a = "dlv"
+        isDlv == a.a = "dlv" /\ n.b # 0
         offChain == isDlv /\ (n.rm \/ ~CS!IsAnc(blk, n.b, head)) IN
     CASE k.h = "ks" ->
            LET truth == IF isDlv THEN PosIn(SetsAt(blk, n.b), k.b) - 1 ELSE PosIn(sets, k.b) - 1 IN
